@@ -209,7 +209,7 @@ func init() {
 	core.Register(&core.Prop{
 		ID:    "C01",
 		Level: "exploration",
-		Rule: "random source trees (adversarial names, sizes around the 32KiB chunk, hard-link groups incl. special files, symlinks, fifos, devices, setuid/setgid/sticky, owners, ns/negative mtimes, xattrs) x prior destinations {empty, unrelated tree, mutated copy, every-type-collides, leftovers with .tmp.* names} x {fresh, dirty, merge} x {on-disk source, synthetic in-memory source} x {root receiver, uid-1234 receiver with read-only files}; real Send+Receive over the instrumented stream; when both return nil an independent snapshot of dest is compared with the expected tree under the statement's mask. " +
+		Rule: "In 1 transfer of 6 the destination argument is an unclean spelling of the same directory (trailing '/', '/.', '/./', '//', 'dest/../dest'). random source trees (adversarial names, sizes around the 32KiB chunk, hard-link groups incl. special files, symlinks, fifos, devices, setuid/setgid/sticky, owners, ns/negative mtimes, xattrs) x prior destinations {empty, unrelated tree, mutated copy, every-type-collides, leftovers with .tmp.* names} x {fresh, dirty, merge} x {on-disk source, synthetic in-memory source} x {root receiver, uid-1234 receiver with read-only files}; real Send+Receive over the instrumented stream; when both return nil an independent snapshot of dest is compared with the expected tree under the statement's mask. " +
 			"non-trivial = both calls succeeded and the case has a multi-chunk file, a link group or special file, or an order-sensitive sibling set; distinct by (source, prior dest, config) fingerprint",
 		Assumptions: []string{"root on a file system with mknod/xattr support; unprivileged receiver emulated by switching the effective uid/gid of the whole process (capabilities are dropped with it)", "the source is not modified during the transfer", "entries whose identity equals the old destination's are legitimately not re-transferred (C02)"},
 		Cases: func(tier string) int {
@@ -509,6 +509,14 @@ func c01Run(c *core.Ctx) *core.Result {
 			r.Count("destinations_named_through_a_symlink", 1)
 			cfg += " dest=via-symlink"
 		}
+	}
+	if sr := core.NewRand(core.Mix(c.Seed, "C01-dest-spelling", c.Index)); recvDest == dest && sr.P(1, 6) {
+		// the same directory, spelled as a caller might: the spelling of
+		// the destination argument is no part of the outcome
+		d, b := filepath.Dir(dest), filepath.Base(dest)
+		recvDest = core.Pick(sr, []string{dest + "/", dest + "/.", d + "/./" + b, d + "//" + b, dest + "/../" + b, dest + "//"})
+		r.Count("destinations_spelled_unclean", 1)
+		cfg += " dest=unclean-spelling"
 	}
 	so := syncOpt{Cfg: wire.Config{Cap: core.Pick(R, caps)}, Src: fs, Dest: recvDest, Recv: ropt}
 	if R.P(1, 3) {
